@@ -654,3 +654,97 @@ V(id='c01-benign-normalize-instead-of-normalize1', prop='C01', file='mpmath/libm
   old="    return normalize1(sign, man, exp, bc, prec, rnd)\n    return s\n",
   new="    return normalize(sign, man, exp, bc, prec, rnd)\n    return s\n",
   expect='silent')
+
+# ---------------------------------------------------------------- C17 -------
+V(id='c17-bump-only-ceiling', prop='C17', file='mpmath/libmp/libelefun.py',
+  old="        if rnd in (round_up, round_ceiling):\n            v += 1",
+  new="        if rnd == round_ceiling:\n            v += 1",
+  expect='fire:K-R1:def_mpf_constant.f')
+V(id='c17-bump-includes-nearest', prop='C17', file='mpmath/libmp/libelefun.py',
+  old="        if rnd in (round_up, round_ceiling):\n            v += 1",
+  new="        if rnd in (round_up, round_ceiling, round_nearest):\n            v += 1",
+  expect='fire:K-R1:def_mpf_constant.f')
+V(id='c17-bump-after-rounding', prop='C17', file='mpmath/libmp/libelefun.py',
+  old="        v = fixed(wp)\n        if rnd in (round_up, round_ceiling):\n            v += 1\n        return normalize(0, v, -wp, bitcount(v), prec, rnd)",
+  new="        v = fixed(wp)\n        r = normalize(0, v, -wp, bitcount(v), prec, rnd)\n        if rnd in (round_up, round_ceiling):\n            v += 1\n        return r",
+  expect='fire:K-R1:def_mpf_constant.f')
+V(id='c17-no-guard-bits', prop='C17', file='mpmath/libmp/libelefun.py',
+  old="        wp = prec + 20\n        v = fixed(wp)", new="        wp = prec + 1\n        v = fixed(wp)",
+  expect='fire:K-R1:def_mpf_constant.f')
+V(id='c17-round-twice', prop='C17', file='mpmath/libmp/libelefun.py',
+  old="        return normalize(0, v, -wp, bitcount(v), prec, rnd)\n    f.__doc__",
+  new="        return mpf_pos(normalize(0, v, -wp, bitcount(v), prec+5, rnd), prec, rnd)\n    f.__doc__",
+  expect='fire:K-R1:def_mpf_constant.f')
+V(id='c17-double-fast-path', prop='C17', file='mpmath/libmp/libelefun.py',
+  old="    def f(prec, rnd=round_fast):\n        wp = prec + 20\n        v = fixed(wp)",
+  new="    def f(prec, rnd=round_fast):\n        if prec == 53 and rnd == round_nearest and fixed is pi_fixed:\n            return from_float(math.pi)\n        wp = prec + 20\n        v = fixed(wp)",
+  expect='fire:K-R1:def_mpf_constant.f')
+V(id='c17-memo-tag-first', prop='C17', file='mpmath/libmp/libelefun.py',
+  old="        f.memo_val = f(newprec, **kwargs)\n        f.memo_prec = newprec",
+  new="        f.memo_prec = newprec\n        f.memo_val = f(newprec, **kwargs)",
+  expect='fire:D-R2:constant_memo')
+V(id='c17-memo-gate-lt-flipped', prop='C17', file='mpmath/libmp/libelefun.py',
+  old="        if prec <= memo_prec:\n            return f.memo_val >> (memo_prec-prec)",
+  new="        if prec <= memo_prec + 8:\n            return f.memo_val >> (memo_prec-prec)",
+  expect='fire:D-R2:constant_memo')
+V(id='c17-ln10-from-ln2', prop='C17', file='mpmath/libmp/libelefun.py',
+  old="mpf_ln10   = def_mpf_constant(ln10_fixed)", new="mpf_ln10   = def_mpf_constant(ln2_fixed)",
+  expect='fire:K-R2:mpf_ln10')
+V(id='c17-degree-unmemoised', prop='C17', file='mpmath/libmp/gammazeta.py',
+  old="@constant_memo\ndef catalan_fixed(prec):", new="def catalan_fixed(prec):",
+  expect='fire:K-R2:catalan_fixed')
+V(id='c17-iv-both-floor', prop='C17', file='mpmath/ctx_iv.py',
+  old="        b = self._f(prec, round_ceiling)\n        return a, b",
+  new="        b = self._f(prec, round_floor)\n        return a, b",
+  expect='fire:K-R3:_get_mpi_')
+V(id='c17-mp-wiring-swapped', prop='C17', file='mpmath/ctx_mp.py',
+  old="ctx.constant(mpf_ln2,", new="ctx.constant(mpf_ln10,",
+  expect='fire:K-R3:init_builtins')
+V(id='c17-constant-ignores-rounding', prop='C17', file='mpmath/ctx_mp_python.py',
+  old="        prec, rounding = self.context._prec_rounding\n        return self.func(prec, rounding)",
+  new="        prec, rounding = self.context._prec_rounding\n        return self.func(prec)",
+  expect='fire:K-R3:_constant._mpf_')
+V(id='c17-shifts-down-table', prop='C17', file='mpmath/libmp/libmpf.py',
+  old="round_ceiling:(0,1)", new="round_ceiling:(1,1)", expect='fire:B-R3:shifts_down')
+V(id='c17-benign-rename', prop='C17', file='mpmath/libmp/libelefun.py',
+  old="        wp = prec + 20\n        v = fixed(wp)\n        if rnd in (round_up, round_ceiling):\n            v += 1\n        return normalize(0, v, -wp, bitcount(v), prec, rnd)",
+  new="        workprec = prec + 25\n        val = fixed(workprec)\n        if rnd == round_up or rnd == round_ceiling:\n            val += 1\n        return normalize(0, val, -workprec, bitcount(val), prec, rnd)",
+  expect='silent')
+V(id='c17-benign-iv-inline', prop='C17', file='mpmath/ctx_iv.py',
+  old="        a = self._f(prec, round_floor)\n        b = self._f(prec, round_ceiling)\n        return a, b",
+  new="        return self._f(prec, round_floor), self._f(prec, round_ceiling)",
+  expect='silent')
+
+# ---------------------------------------------------------------- C24 -------
+V(id='c24-psi0-no-divergence-exit', prop='C24', file='mpmath/libmp/gammazeta.py',
+  old="        if k > 2 and (mpf_le(szterm, eps) or mpf_le(prev, szterm)):",
+  new="        if k > 2 and mpf_le(szterm, eps):",
+  expect='fire:T-R7:mpc_psi0')
+V(id='c24-real-psi0-no-divergence-exit', prop='C24', file='mpmath/libmp/gammazeta.py',
+  old="        if k > 2 and term >= prev:\n            break", new="        if k > 2 and not term:\n            break",
+  expect='fire:T-R7:mpf_psi0')
+V(id='c24-psi-start-lowered', prop='C24', file='mpmath/libmp/gammazeta.py',
+  old="    n = int(0.4*wp + 4*m)", new="    n = int(0.1*wp + 4*m)",
+  expect='fire:T-R7:mpc_psi')
+V(id='c24-ei-cap-outside-loop', prop='C24', file='mpmath/libmp/libhyper.py',
+  old="        k += 1\n        if k > prec:\n            raise NoConvergence\n    return sre, sim",
+  new="        k += 1\n    if k > prec:\n        raise NoConvergence\n    return sre, sim",
+  expect='fire:T-R5:complex_ei_asymptotic')
+V(id='c24-hypsum-fp-cap-removed', prop='C24', file='mpmath/ctx_fp.py',
+  old="            if k > maxterms:\n                raise ctx.NoConvergence", new="            pass",
+  expect='fire:T-R5:FPContext.hypsum')
+V(id='c24-hurwitz-clamped-cap', prop='C24', file='mpmath/functions/zeta.py',
+  old="                extraprec = max(2*extraprec, min(cancellation + 5, 100*prec))\n                if extraprec > kwargs.get('maxprec', 100*prec):",
+  new="                maxprec = kwargs.get('maxprec', 100*prec)\n                extraprec = min(max(2*extraprec, cancellation + 5), maxprec)\n                if extraprec > maxprec:",
+  expect='fire:T-R6:_hurwitz')
+V(id='c24-hypercomb-no-escalation', prop='C24', file='mpmath/functions/hypergeometric.py',
+  old="            if ctx.prec > maxprec:\n                raise ValueError(_hypercomb_msg % (orig, ctx.prec))\n",
+  new="", expect='fire:T-R4:hypercomb')
+V(id='c24-loop-exit-on-constant', prop='C24', file='mpmath/libmp/libelefun.py',
+  old="    while 1:\n        anew = (a+b)>>1\n        if i > 4 and abs(a-anew) < 8:\n            return a",
+  new="    tol = 0\n    while 1:\n        anew = (a+b)>>1\n        if tol:\n            return a",
+  expect='fire:T-R2')
+V(id='c24-benign-cap-in-condition', prop='C24', file='mpmath/libmp/libhyper.py',
+  old="    while _abs(tre) + _abs(tim) > 1000:\n        #print tre, tim\n        tre, tim = ((tre*xre-tim*xim)*k)>>prec, ((tre*xim+tim*xre)*k)>>prec\n        sre += tre\n        sim += tim\n        k += 1\n        if k > prec:\n            raise NoConvergence\n    return sre, sim",
+  new="    while _abs(tre) + _abs(tim) > 1000 and k <= prec:\n        tre, tim = ((tre*xre-tim*xim)*k)>>prec, ((tre*xim+tim*xre)*k)>>prec\n        sre += tre\n        sim += tim\n        k += 1\n    if k > prec:\n        raise NoConvergence\n    return sre, sim",
+  expect='silent')
